@@ -30,6 +30,8 @@ func execLine(line string) string {
 			return "case"
 		case "gen":
 			return execGen(t[1:])
+		case "read":
+			return execRead(t[1:])
 		case "packed":
 			return execPacked(t[1:])
 		}
@@ -43,6 +45,7 @@ var Shard, Shards = 0, 1
 
 var generators = map[string]func(rec *lib.Rec, r *lib.Rng, thorough bool){
 	"C13": genC13,
+	"C01": genC01,
 	"GEN": func(rec *lib.Rec, r *lib.Rng, thorough bool) { genTranslatorStream(rec, r, map[bool]int{false: 2000, true: 100000}[thorough], nil) },
 }
 
